@@ -17,6 +17,16 @@ T = {
  "C04-r2m2-whitelist-setter-ro-cache": ("Policy.setWhitelistFeeContract edits the cache obtained with GetROCache", "committee-signed execution reaches the setter and then faults or throws into a catch", "pkg/core/native/native_test", "TestC04Demo_FailedWhitelistFeeSettingLeavesNoTrace", "DETECTED cache-ro"),
  "C10-r2m1-batch-drops-empty-valued-prefix": ("newSubTrieMany keeps the existing value as last child only if len(value) != 0 (was != nil)", "key K stored with an empty value as a plain leaf, PutBatch adding keys that have K as proper prefix, K not in the batch", "pkg/core/mpt", "TestDemoC10M1", "missed"),
  "C10-r2m2-flush-stale-initial-count": ("Trie.Flush drops the result of updateRefCount instead of storing it in node.initial", "ref-counting mode, shared node loaded from the store in the flush period in which its counter changes, two later flushes (+1 then -1) without Collapse", "pkg/core/mpt", "TestDemoC10M2", "missed"),
+ "C02-r2m1-restart-clears-votes-changed": ("NEO.InitializeCache no longer starts the rebuilt cache with votesChanged raised", "committee > 1, a vote-affecting tx in an already flushed block of the epoch, restart at least two blocks before the epoch ends, no further vote-affecting tx", "pkg/core", "TestC02M1_RestartInsideEpochAfterVote", "missed (the flag was tabled as `derived: starts set` without the rule looking at its initial value)"),
+ "C02-r2m2-resume-skips-stateroot-cleanup": ("stateroot.Module.ResetState deletes newer state roots by counting up to the in-memory localHeight, which a resumed reset has not initialised", "crash during Reset before the headersReset batch reaches disk, restart resumes it: stale state roots above the reset height stay", "pkg/core", "TestC02M2_InterruptedResetIsResumed", "missed"),
+ "C03-r2m1-empty-valued-key-dropped": ("newSubTrieMany re-creates the carried-over value only if len(value) != 0 (same mutation as C10-r2m1, delivered independently)", "key K stored with an empty value, a later block stores K+suffix without touching K", "pkg/core", "TestC03Demo1", "missed"),
+ "C03-r2m2-trie-read-key-limit-too-small": ("mpt.MaxKeyLength shrunk to the storage key limit, forgetting the 4-byte contract id", "contract storage key of 61..64 bytes stored (write path has no check) and then read through the trie", "pkg/core", "TestC03Demo2", "missed"),
+ "C07-r2m1-recheck-flag-last-witness-only": ("IsTxStillRelevant lets the last witness alone decide whether witnesses are re-verified", "pooled tx with >= 2 signers, a state-dependent non-standard witness that is not last, a later block invalidating it, then a proposal built from the pool", "pkg/core", "TestC07M1_PoolContentsFormAcceptableBlock", "missed"),
+ "C07-r2m2-pusha-target-unchecked": ("IsScriptCorrect no longer records PUSHA operands as jump targets", "transaction or witness script with a misaligned PUSHA offset", "pkg/core", "TestC07M2_MalformedScriptIsNotAdmitted", "missed under C07; DETECTED jump-opcode-agreement under C12 (the rule was not registered for C07; now it is)"),
+ "C11-r2m1-merge-extension-keeps-old-ref": ("mergeExtension builds the merged extension from the fields of a node just loaded from the store and never releases the loaded one", "ref-counting mode, PutBatch stripping a branch down to one extension child that the in-memory trie holds as a hash node (after Collapse or restart)", "pkg/core/stateroot", "TestDemoM1_NodeStorageIsExactAfterBranchStrip", "missed"),
+ "C11-r2m2-flush-stale-initial-count": ("Trie.Flush drops the result of updateRefCount (same mutation as C10-r2m2, delivered independently)", "shared node known by hash only, loaded after addRef created its map entry, next block changes the count again on the same uncollapsed trie", "pkg/core/stateroot", "TestDemoM2_SharedValueSurvivesUnrelatedDelete", "DETECTED rc-writers (refcount-result clause, added an hour earlier because of the identical C10-r2m2)"),
+ "C12-r2m1-setitem-unrefs-wrong-struct": ("SETITEM's out-of-range branch releases the original struct instead of its clone", "out-of-range SETITEM inside TRY with a Struct value that is also referenced elsewhere: the counter under-counts and the 2048 limit is bypassed", "pkg/vm", "TestC12M1_SetItemOutOfRangeSharedStruct", "missed"),
+ "C12-r2m2-gas-limit-truncated": ("the per-opcode gas limit check compares whole Datoshi (truncating) instead of picoGAS", "fractional ExecFeeFactor (post-Faun), consumption ending strictly between the limit and the limit plus one Datoshi", "pkg/vm", "TestC12M2_GasLimitIsNeverExceededOnHalt", "DETECTED gas-before-dispatch"),
 }
 HISTORY = {}
 if os.path.exists("/verif/tools/seed_history_r2.json"):
